@@ -1,7 +1,7 @@
 //@unit C01_ringops
 //@props C01 C03
 //@safetyprops C10 C14
-//@desc Ring surgery of the sweep (loop-free functions, harnesses over every aliasing of small rings): AddOutPt (rings of 1, 2, 3: a point equal to the end it extends is not added again, otherwise exactly one new vertex goes between the front and the back end with consistent links and the front end moves only when the front edge adds - so no equal neighbours arise at the growing end); JoinOutrecPaths (rings 1x1, 2x1, 2x3, 3x2: one ring holding every vertex of both paths exactly once, attached at e1's end, front/back ends and edges taken over, e2's OutRec emptied and pointed at the survivor); SwapOutrecs (every hot/cold combination of two edges on one or two OutRecs: the edges exchange OutRecs, each takes exactly the side the other had, the coupling invariant - a hot edge is the front or back edge of its OutRec - is preserved); AddLocalMaxPoly (call trace; C11: succeeded_ is cleared exactly when both edges claim the same side of their OutRec and neither is an open-path end, and then nothing is built; otherwise one vertex is added on e1's side, one OutRec is closed or two are joined exactly once).
+//@desc Ring surgery of the sweep (loop-free functions, harnesses over every aliasing of small rings): AddOutPt (rings of 1, 2, 3: a point equal to the end it extends is not added again, otherwise exactly one new vertex goes between the front and the back end with consistent links and the front end moves only when the front edge adds - so no equal neighbours arise at the growing end); JoinOutrecPaths (rings 1x1, 2x1, 2x3, 3x2: one ring holding every vertex of both paths exactly once, attached at e1's end, front/back ends and edges taken over, e2's OutRec emptied and pointed at the survivor); DuplicateOp (rings of 1 and 3: one copy linked in right before / after the original, ring grows by one); SwapOutrecs (every hot/cold combination of two edges on one or two OutRecs: the edges exchange OutRecs, each takes exactly the side the other had, the coupling invariant - a hot edge is the front or back edge of its OutRec - is preserved); AddLocalMaxPoly (call trace; C11: succeeded_ is cleared exactly when both edges claim the same side of their OutRec and neither is an open-path end, and then nothing is built; otherwise one vertex is added on e1's side, one OutRec is closed or two are joined exactly once).
 #include "vf.h"
 //@include engine_types.inc
 static inline bool Point64_eq(Point64 a, Point64 b) { return a.x == b.x && a.y == b.y; }
@@ -174,6 +174,26 @@ void h_SwapOr(void)
   VF_CANARY();
 }
 #endif
+/* ---------- DuplicateOp: a copy of a vertex next to it ---------- */
+#ifdef DUPOP
+//@extract file=CPP/Clipper2Lib/src/clipper.engine.cpp func=DuplicateOp ifdef=DUPOP
+//@sub /new OutPt\(/vf_new_outpt(/
+//@end
+void h_Dup(void)
+{
+  OutRec orec;
+  for (int i = 0; i < R; ++i) { g_ring[i].pt.x = nondet_i64(); g_ring[i].pt.y = nondet_i64(); g_ring[i].next = &g_ring[(i + 1) % R]; g_ring[i].prev = &g_ring[(i + R - 1) % R]; g_ring[i].outrec = &orec; }
+  unsigned k = nondet_uint() % R; bool after = nondet_bool(); g_nnew = 0;
+  OutPt* op = &g_ring[k]; OutPt* nxt = op->next; OutPt* prv = op->prev;
+  OutPt* r = DuplicateOp(op, after);
+  __CPROVER_assert(r == &g_new && Point64_eq(r->pt, op->pt) && r->outrec == &orec, "one new vertex with the same point and owner");
+  if (after) __CPROVER_assert(op->next == r && r->prev == op && r->next == (R == 1 ? op : nxt) && (R == 1 ? op->prev == r : nxt->prev == r), "linked in right after the original");
+  else __CPROVER_assert(op->prev == r && r->next == op && r->prev == (R == 1 ? op : prv) && (R == 1 ? op->next == r : prv->next == r), "linked in right before the original");
+  int cnt = 0; OutPt* p = op; for (int i = 0; i < R + 1; ++i) { __CPROVER_assert(p->next->prev == p, "ring consistent"); cnt++; p = p->next; if (p == op) break; }
+  __CPROVER_assert(p == op && cnt == R + 1, "the ring has grown by exactly one");
+  VF_CANARY();
+}
+#endif
 //@run name=AddOutPt.ring1 entry=h_AddOutPt defs=ADDOUTPT,R=1 unwind=6 flags="--bounds-check --pointer-check" solver=cadical timeout=120
 //@run name=AddOutPt.ring2 entry=h_AddOutPt defs=ADDOUTPT,R=2 unwind=6 flags="--bounds-check --pointer-check" solver=cadical timeout=120
 //@run name=AddOutPt.ring3 entry=h_AddOutPt defs=ADDOUTPT,R=3 unwind=6 flags="--bounds-check --pointer-check" solver=cadical timeout=120
@@ -184,3 +204,5 @@ void h_SwapOr(void)
 //@run name=AddLocalMaxPoly entry=h_LocMax defs=LOCMAX unwind=4 flags="--bounds-check --pointer-check" solver=cadical timeout=120 props=C11,C01
 //@assume A5 (C01_ringops): in the AddLocalMaxPoly harness Split, SwapFrontBackSides, AddOutPt, GetPrevHotEdge, SetOwner, UncoupleOutRec, JoinOutrecPaths are counting stubs and the edge predicates answer arbitrarily; new OutPt is a one-element pool.
 //@run name=SwapOutrecs entry=h_SwapOr defs=SWAPOR unwind=3 flags="--bounds-check --pointer-check" solver=cadical timeout=120
+//@run name=DuplicateOp.ring1 entry=h_Dup defs=DUPOP,R=1 unwind=6 flags="--bounds-check --pointer-check" solver=cadical timeout=120
+//@run name=DuplicateOp.ring3 entry=h_Dup defs=DUPOP,R=3 unwind=6 flags="--bounds-check --pointer-check" solver=cadical timeout=120
